@@ -3,6 +3,7 @@
 
      matching cost               Model/MatchingCost.v  sad / ssd / census / zncc _volume (C02)
        and its validity mask     Model/Criteria.v      after_mc                          (C04)
+     cbca aggregation            Model/Cbca.v          cbca_volume                       (C11)
      winner-takes-all            Model/Wta.v           to_disp                           (C03)
      sub-pixel refinement        Model/Refine.v        loop_pixel                        (C06)
      median filter               Model/Filters.v       median_filter_disparity           (C10)
@@ -18,7 +19,7 @@
    Definitions only. *)
 From Coq Require Import ZArith QArith Qround List Bool.
 From Pandora Require Import Lib.Ext Spec.Local.
-From Pandora Require Model.MatchingCost Model.Criteria Model.Wta Model.Refine Model.Filters Model.CrossCheck.
+From Pandora Require Model.MatchingCost Model.Criteria Model.Wta Model.Refine Model.Filters Model.CrossCheck Model.Cbca.
 Import ListNotations.
 Open Scope Z_scope.
 
@@ -33,6 +34,8 @@ Record pix : Type := mkPix {
 (* the input part of a state: what no step rewrites *)
 Definition img_of (p : pix) : Z * Z * Z * Z := (p_L p, p_R p, p_mL p, p_mR p).
 
+Definition set_cv (p : pix) (cl cr : list (option Q)) : pix :=
+  mkPix (p_L p) (p_R p) (p_mL p) (p_mR p) cl cr (p_dL p) (p_dR p) (p_fL p) (p_fR p).
 Definition set_mc (p : pix) (cl cr : list (option Q)) (fl fr : Z) : pix :=
   mkPix (p_L p) (p_R p) (p_mL p) (p_mR p) cl cr (p_dL p) (p_dR p) fl fr.
 Definition set_disp (p : pix) (dl dr : option Q) (fl fr : Z) : pix :=
@@ -114,6 +117,37 @@ Definition wta_step (mx : bool) (B : Z) (invalid : option Q) (G : cfg) : op pix 
               (fun r c => map to_cost (p_cvR (f_at F r c))) (fun _ _ => []) (fld p_fR F) in
   set_disp (f_at F r c) (Wta.o_disp oL r c) (Wta.o_disp oR r c) (Wta.o_mask oL r c) (Wta.o_mask oR r c).
 
+(* ------------------------------------------------------------------ cbca aggregation
+   aggregation_run: cost_volume_aggregation on the left cost volume, and on the right one (images exchanged,
+   interval [-dmax, -dmin]) when the pipeline has a validation step.  The validity masks are not touched.
+   The images are the float32 rasters (integers here), the s-th shifted right image is the linear interpolation
+   at columns j + s/subpix (shift_right_img), the disparities are the samples of the cost volume. *)
+Definition qimg (I : Z -> Z -> Z) : Cbca.img := fun r c => Some (inject_Z (I r c)).
+Definition shifted (sub : Z) (R : Z -> Z -> Z) (s : Z) : Cbca.img :=
+  fun r c => Some (Qred (MatchingCost.shift_right sub R s r c # Z.to_pos sub)).
+Definition cv_at (cv : pix -> list (option Q)) (F : frame pix) (k r c : Z) : option Q :=
+  nth (Z.to_nat k) (cv (f_at F r c)) None.
+
+Definition cbca_left (dist : Z) (inten : Q) (G : cfg) (F : frame pix) : Cbca.cbca_in :=
+  Cbca.mkIn (f_nr F) (f_nc F) (MatchingCost.offset (g_w G)) (g_s G) dist inten
+    (qimg (fld p_L F)) (omask (g_hasL G) (fld p_mL F)) (g_vp G)
+    (shifted (g_s G) (fld p_R F)) (omask (g_hasR G) (fld p_mR F)) (g_vp G)
+    (disps (g_s G) (g_dmin G) (n_disp G)) (cv_at p_cvL F).
+Definition cbca_right (dist : Z) (inten : Q) (G : cfg) (F : frame pix) : Cbca.cbca_in :=
+  Cbca.mkIn (f_nr F) (f_nc F) (MatchingCost.offset (g_w G)) (g_s G) dist inten
+    (qimg (fld p_R F)) (omask (g_hasR G) (fld p_mR F)) (g_vp G)
+    (shifted (g_s G) (fld p_L F)) (omask (g_hasL G) (fld p_mL F)) (g_vp G)
+    (disps (g_s G) (- g_dmax G) (n_disp G)) (cv_at p_cvR F).
+
+(* cost_volume[k][r][c] after the aggregation *)
+Definition cbca_at (x : Cbca.cbca_in) (k r c : Z) : option Q :=
+  Cbca.lookup None (nth (Z.to_nat k) (Cbca.cbca_volume x) []) r c.
+
+Definition cbca_step (dist : Z) (inten : Q) (G : cfg) : op pix pix := fun F r c =>
+  set_cv (f_at F r c)
+    (map (fun k => cbca_at (cbca_left dist inten G F) k r c) (MatchingCost.zrange 0 (n_disp G)))
+    (map (fun k => cbca_at (cbca_right dist inten G F) k r c) (MatchingCost.zrange 0 (n_disp G))).
+
 (* ------------------------------------------------------------------ refinement (vfit / quadratic)
    One pixel of loop_refinement.  A pixel on which the kernel raises (division by zero) or reads
    outside the disparity axis makes the whole CALL fail (C06's subject); here its outcome is recorded
@@ -187,6 +221,20 @@ Definition rad_mc (G : cfg) : radii :=
   let h := MatchingCost.offset (g_w G) in mkRad h (h + dspan G) (h + dspan G).
 Definition rad_filter (w : Z) : radii := mkRad (w / 2) (w / 2) (w / 2).
 Definition rad_xcheck (G : cfg) : radii := mkRad 0 (dspan G) (dspan G).
+
+(* cbca.  An arm has at most [cbca_arm] = max(cbca_distance - 1, 1) pixels (it stops AT cbca_distance; one pixel
+   minimum), and reads nothing further.  The support region of a pixel (vertical arm, then the horizontal arms of
+   each arm pixel) lies within cbca_arm rows and columns: the costs of that square are read.  The arms are
+   measured on the 3x3-median-filtered images, left image around the pixel, right image around column c + d:
+   the images are read one pixel further, columns extended by the disparity span.  The pixel must be that far
+   from the image sides, and (window offset h: the images are cropped by h after filtering) at least
+   cbca_arm + h. *)
+Definition cbca_arm (dist : Z) : Z := Z.max (dist - 1) 1.
+Definition rad_cbca_S (dist : Z) : radii := let A := cbca_arm dist in mkRad A A A.
+Definition rad_cbca_I (G : cfg) (dist : Z) : radii :=
+  let A := cbca_arm dist in mkRad (A + 1) (A + 1 + dspan G) (A + 1 + dspan G).
+Definition rad_cbca_M (G : cfg) (dist : Z) : radii :=
+  let g := cbca_arm dist + Z.max 1 (MatchingCost.offset (g_w G)) in mkRad g (g + dspan G) (g + dspan G).
 
 (* margin of cross-checking: the disparity span, and the window margin that mask_border paints *)
 Definition rad_xcheck_margin (G : cfg) : radii :=
